@@ -6,6 +6,10 @@ ALL = ["C%02d" % i for i in range(1, 21)]
 
 # property -> (level, design_ref, engine, technique, level text, level note)
 CLAIMED = {
+ "C15": ("exploration", "DESIGN.md §2 C15", "vp",
+   "exhaustive enumeration of record sequences (round trip after every record) and of a damage grammar over real dump files, each printed by the real reader under ASan",
+   "Round trip: every sequence of up to 5 (thorough 7) log calls of four kinds, after 0/7/9/12 filler records (so the ring wraps), into blackboxes of three sizes; after every record the blackbox is dumped, printed, and the captured output compared field by field (priority, function, line, tags, timestamp, text) with the newest records. Robustness: three valid dumps damaged by every truncation length, every header word x 12 boundary values with and without repaired hash, pairs of header words, every field of the oldest record x 10 values, every single byte flipped, short files announcing tiny rings, arbitrary small files: the print call must return without crash, assertion or sanitizer report and leave /dev/shm unchanged.",
+   "Damage grammar bounded as stated (single and selected double damage); result code of the print call is not judged; batches of 100 files per forked process with exact crash attribution."),
  "C14": ("exploration", "DESIGN.md §2 C14", "vp",
    "bounded-exhaustive enumeration of a printf-format/argument grammar through the real blackbox encoder and decoder with exact-size heap buffers (ASan), compared with vsnprintf",
    "All formats of up to 2 (thorough 3) conversions — the first from the full product of flags, width (incl. *), precision (incl. .*), length modifier l ll z t j and conversion d i o u x X c s p e E f F g G a A %% that C defines, the others from 14 representative conversions — with literal text of 0, 2 and 600 characters around them and extreme integer, floating and string arguments (empty, containing '%', 600 characters, NULL) are encoded with qb_vsnprintf_serialize into buffers of exactly fit-1, fit and 512 bytes and decoded with qb_vsnprintf_deserialize into buffers of 1, 16, fit and 512 bytes; the decoded text must equal vsnprintf's whenever it fits, and no byte may be touched outside either buffer.",
@@ -37,7 +41,7 @@ CLAIMED = {
  "C11": ("model_checking", "DESIGN.md §2 C11", "vp",
    "explicit enumeration of write sequences on real overwrite rings with a full drain of a snapshot after every write",
    "Real overwrite rings (three sizes, with/without semaphore, clean or pre-filled with marker-valued words) from wrap-critical and from every start position: every sequence of writes up to the stated depth over six lengths (tiny to exactly S) and two payloads; after every single write the ring image is saved, drained with qb_rb_chunk_read, compared with the newest-k suffix of the history (k >= 1 and k >= what the 16-byte-overhead rule guarantees) and restored.",
-   "Depth-bounded; the blackbox dump part of the statement is checked by the C15 harness (dump after every record) once built; sizes limited to the listed three."),
+   "Depth-bounded; sizes limited to the listed three; the blackbox part (third run) dumps and prints the real blackbox after every record and requires an unbroken run of the newest records ending with the last one."),
  "C17": ("model_checking", "DESIGN.md §2 C17", "vp",
    "bounded-exhaustive enumeration of operation histories on the real hashtable/skiplist/trie against a dictionary + notifier-registration model (stateless explorer)",
    "Every history up to the stated depth (from the empty map and from 30 seeded non-initial maps) over put/rm on eight colliding keys, full/prefix iteration, abandoned foreach, notifier add/delete and destroy is executed on each real map implementation through qbmap.h only; return values, get of every key, count, iteration order/content and the exact multiset of notifier calls are compared with the model after every step; ASan is an additional oracle.",
